@@ -415,7 +415,11 @@ func runStop(x *core.Ctx, r *core.Rng) {
 		}
 	case <-time.After(30 * time.Second):
 		_, dump := census()
-		fail("stop-hangs", stopKind+" did not return within 30 s although every output gate is open ("+strings.Join(kinds, "+")+")", "goroutines running kapacitor code:\n%s", clip(dump, 6000))
+		prof := ""
+		if x.Case.PBool("bp") {
+			prof = "[back-pressure] "
+		}
+		fail("stop-hangs", prof+stopKind+" did not return within 30 s although every output gate is open ("+strings.Join(kinds, "+")+")", "goroutines running kapacitor code:\n%s", clip(dump, 9000))
 		envClosed = true // closing would block behind the hung stop: leak this environment
 		return
 	}
